@@ -32,6 +32,11 @@ type Fin struct {
 	// ExplicitTx: the program itself opens a transaction (Transaction / Begin),
 	// so BEGIN/COMMIT reach the driver in every mode by request.
 	ExplicitTx bool
+	// WriteStep ("INSERT" / "UPDATE"): for a Multi finisher whose returned
+	// handle exposes its main WRITE statement in DryRun (the lookup before it
+	// finds nothing): C19 compares that statement with the first statement of
+	// the real run that starts with this keyword.
+	WriteStep string
 	// NoScanDest: the destination cannot receive RETURNING rows in a real run
 	// ([]map destination, the unaddressable sub-slice of a batch, a map update
 	// without model): gorm's Scan panics there. Combined with an explicit
@@ -56,6 +61,9 @@ var (
 	bCreate = set("TABLE", "ONCONFLICT")
 	bNone   = set()
 )
+
+// ErrLookupFound: a lookup-then-write finisher found a row and skipped its write step.
+var ErrLookupFound = errors.New("proggram: lookup found a row, write step skipped")
 
 var errStopBatches = errors.New("proggram: stop after 4 batches")
 
@@ -255,7 +263,7 @@ func buildFins() []*Fin {
 			return db.Model(NewPtr(c.Model)).Scan(NewSlicePtr(c.Model))
 		}})
 
-	add(&Fin{Label: `FirstOrCreate(&M{}, map{{0}:v})`, Kind: "create", Write: true, Multi: true, Builds: bNone, Slots: []SlotSpec{{J: 0, Classes: mapClasses}},
+	add(&Fin{Label: `FirstOrCreate(&M{}, map{{0}:v})`, Kind: "create", Write: true, Multi: true, WriteStep: "INSERT", Builds: bNone, Slots: []SlotSpec{{J: 0, Classes: mapClasses}},
 		Run: func(db *gorm.DB, c *Ctx, v []Val) *gorm.DB {
 			return db.FirstOrCreate(NewPtr(c.Model), map[string]interface{}{c.Col(0): v[0].V})
 		}})
@@ -263,6 +271,47 @@ func buildFins() []*Fin {
 		Run: func(db *gorm.DB, c *Ctx, v []Val) *gorm.DB {
 			return db.Assign(map[string]interface{}{c.Col(8): v[0].V}).FirstOrCreate(NewPtr(c.Model), map[string]interface{}{"id": 5})
 		}})
+	// lookups into a destination that already carries values, followed by a write of it
+	preSlots := []SlotSpec{{J: 0, Classes: []Class{CStr, CQuote}}, {J: 8, Classes: []Class{CStr, CQMark}}, {J: 1, Classes: []Class{CInt}}}
+	preRec := func(c *Ctx, v []Val) interface{} {
+		return NewRec(c.Model, 0, map[int]interface{}{c.N(8): v[1].V, c.N(1): v[2].V})
+	}
+	add(&Fin{Label: `FirstOrCreate(&M{{8}:w,{1}:n (pre-filled)}, map{{0}:v})`, Rep: true, Kind: "create", Write: true, Multi: true, WriteStep: "INSERT", Builds: bNone, Slots: preSlots,
+		Run: func(db *gorm.DB, c *Ctx, v []Val) *gorm.DB {
+			return db.FirstOrCreate(preRec(c, v), map[string]interface{}{c.Col(0): v[0].V})
+		}})
+	type lookup struct {
+		name string
+		call func(db *gorm.DB, dest interface{}, cond interface{}) *gorm.DB
+	}
+	type write struct {
+		name string
+		call func(db *gorm.DB, dest interface{}) *gorm.DB
+	}
+	save := write{"Save", func(db *gorm.DB, dest interface{}) *gorm.DB { return db.Save(dest) }}
+	create := write{"Create", func(db *gorm.DB, dest interface{}) *gorm.DB { return db.Create(dest) }}
+	for _, lw := range []struct {
+		l lookup
+		w write
+	}{
+		{lookup{"First", func(db *gorm.DB, d, cnd interface{}) *gorm.DB { return db.First(d, cnd) }}, save},
+		{lookup{"Take", func(db *gorm.DB, d, cnd interface{}) *gorm.DB { return db.Take(d, cnd) }}, create},
+		{lookup{"Find", func(db *gorm.DB, d, cnd interface{}) *gorm.DB { return db.Find(d, cnd) }}, create},
+	} {
+		lw := lw
+		add(&Fin{Label: lw.l.name + `(&dest{{8}:w,{1}:n (pre-filled)}, map{{0}:v}) finds nothing; ` + lw.w.name + `(&dest)`, Kind: "create", Write: true, Multi: true, WriteStep: "INSERT", Builds: bNone, Slots: preSlots,
+			Run: func(db *gorm.DB, c *Ctx, v []Val) *gorm.DB {
+				dest := preRec(c, v)
+				look := lw.l.call(db, dest, map[string]interface{}{c.Col(0): v[0].V})
+				if look.RowsAffected > 0 {
+					// the chain matched a seeded row: the write step would depend on
+					// loaded data, which DryRun cannot know — not part of the program
+					look.AddError(ErrLookupFound)
+					return look
+				}
+				return lw.w.call(c.Base, dest)
+			}})
+	}
 	add(&Fin{Label: `FindInBatches(&[]M, 2, fc)`, Kind: "query", Multi: true, Builds: bNone,
 		Run: func(db *gorm.DB, c *Ctx, v []Val) *gorm.DB {
 			// the callback stops after 4 batches: with some chains (an Or unit
